@@ -229,9 +229,6 @@ Proof.
   intros (rx & H1 & H2) -> Hb Ho. exists rx. rewrite Hb, Ho, firstn_skipn. split; assumption.
 Qed.
 
-Lemma next_tremain_cases tmo ts now :
-  next_tremain tmo ts now = None \/ exists tr, next_tremain tmo ts now = Some tr.
-Proof. destruct (next_tremain tmo ts now); [right; eauto | left; reflexivity]. Qed.
 
 (* ---- read ---------------------------------------------------------------------------------- *)
 
@@ -263,18 +260,31 @@ Proof.
       * inversion H; subst. repeat split; try congruence; auto.
         -- exists []. cbn [ret app]. rewrite app_nil_r, Eb. split; [reflexivity | exact Es].
         -- intros _ _. rewrite Eb. lia.
-      * destruct (next_tremain_cases tmo ts (clk s1)) as [E|[tr' E]];
-          rewrite E in H.
-        -- inversion H; subst; sim. repeat split; try congruence; auto.
-           ++ exists (x :: b). cbn [ret app]. rewrite Eb. split; [reflexivity | exact Es].
-           ++ intros M _. rewrite Eb, len_app. lia.
-        -- apply IH in H; [|sim; auto]. sim.
-           destruct H as (Ho' & Hp' & Hm & Hw & Hb & Hr1 & Hr2 & Hr3 & Hmin & Hf).
-           repeat split; try congruence; auto.
-           ++ apply (moved_recv s (set_buf s1 (buf s1 ++ x :: b)) s' (x :: b)); sim;
-                [now rewrite Eb | exact Es | exact Hm].
-           ++ intros Hlt. apply Hf. unfold meas in *. sim.
-              assert (x :: b <> []) by discriminate. specialize (Em H). unfold meas in Em. sim. lia.
+      * assert (REC : forall tr', read_loop c f n tmo ts tr' (set_buf s1 (buf s1 ++ x :: b)) = (s', r) ->
+          is_open s' = is_open s /\ pend s' = pend s /\ moved s s' (ret r) /\ wf c (orc s') /\
+          (forall b, r = RBytes b -> len b = n) /\
+          r <> RRuntime /\ r <> RNone /\ r <> RInvalid /\
+          (minp c = 0%N -> r = RTimeout \/ r = REof -> (len (buf s') <= n)%N) /\
+          (meas s < S f -> r <> RFuel)).
+        { intros tr' HH. apply IH in HH; [|sim; auto]. sim.
+          destruct HH as (Ho' & Hp' & Hm & Hw & Hb & Hr1 & Hr2 & Hr3 & Hmin & Hf).
+          repeat split; try congruence; auto.
+          - apply (moved_recv s (set_buf s1 (buf s1 ++ x :: b)) s' (x :: b)); sim;
+              [now rewrite Eb | exact Es | exact Hm].
+          - intros Hlt. apply Hf. unfold meas in *. sim.
+            assert (Hne : x :: b <> []) by discriminate. specialize (Em Hne). unfold meas in Em. sim. lia. }
+        destruct (deadline (cpol c) tmo ts (clk s1)) as [| |tr'] eqn:E.
+        -- apply REC in H. exact H.
+        -- destruct (late_read (cpol c) && (n <=? len (buf s1 ++ x :: b))%N) eqn:El.
+           ++ apply andb_true_iff in El as [_ El]. inversion H; subst; sim.
+              repeat split; try congruence; auto.
+              ** exists (x :: b). cbn [ret]. rewrite Eb, take_drop. split; [reflexivity | exact Es].
+              ** intros b0 [= <-]. apply len_take. lia.
+              ** intros _ [|]; discriminate.
+           ++ inversion H; subst; sim. repeat split; try congruence; auto.
+              ** exists (x :: b). cbn [ret app]. rewrite Eb. split; [reflexivity | exact Es].
+              ** intros M _. rewrite Eb, len_app. lia.
+        -- apply REC in H. exact H.
     + inversion H; subst. repeat split; try congruence; auto.
       * exists []. cbn [ret app]. rewrite app_nil_r, Eb. split; [reflexivity | exact Ed].
       * intros _ _. rewrite Eb. lia.
@@ -320,20 +330,35 @@ Proof.
         exists []. cbn [ret app]. rewrite app_nil_r, Eb. split; [reflexivity | exact Es].
       * assert (Mrecv : moved s (set_buf s1 (buf s1 ++ x :: b)) []).
         { exists (x :: b). sim. rewrite Eb. split; [reflexivity | exact Es]. }
+        assert (TMO : (set_buf s1 (buf s1 ++ x :: b), RTimeout) = (s', r) ->
+          is_open s' = is_open s /\ pend s' = pend s /\ moved s s' (ret r) /\ wf c (orc s') /\
+          (forall b, r = RBytes b -> shortest term b) /\
+          r <> RRuntime /\ r <> RNone /\ r <> RInvalid /\ (meas s < S f -> r <> RFuel)).
+        { intros HH. inversion HH; subst; sim. repeat split; try congruence; auto. }
+        assert (REC : forall tr', ru_loop c f term tmo ts tr' (set_buf s1 (buf s1 ++ x :: b)) = (s', r) ->
+          is_open s' = is_open s /\ pend s' = pend s /\ moved s s' (ret r) /\ wf c (orc s') /\
+          (forall b, r = RBytes b -> shortest term b) /\
+          r <> RRuntime /\ r <> RNone /\ r <> RInvalid /\ (meas s < S f -> r <> RFuel)).
+        { intros tr' HH. apply IH in HH; [|sim; auto]. sim.
+          destruct HH as (Ho' & Hp' & Hm & Hw & Hb & Hr1 & Hr2 & Hr3 & Hf).
+          repeat split; try congruence; auto.
+          - apply (moved_recv s (set_buf s1 (buf s1 ++ x :: b)) s' (x :: b)); sim;
+              [now rewrite Eb | exact Es | exact Hm].
+          - intros Hlt. apply Hf. unfold meas in *. sim.
+            assert (Hne : x :: b <> []) by discriminate. specialize (Em Hne). unfold meas in Em. sim. lia. }
         destruct (cut_term term (set_buf s1 (buf s1 ++ x :: b))) as [[sc rc]|] eqn:Ec.
-        -- inversion H; subst. apply cut_term_Some in Ec as (bb & rest & -> & Hsh & Hcat & ->).
-           sim. repeat split; try congruence; auto.
-           destruct Mrecv as (rx & M1 & M2). sim. exists rx. cbn [ret app] in *. sim. rewrite Hcat.
-           split; assumption.
-        -- destruct (next_tremain_cases tmo ts (clk s1)) as [E|[tr' E]]; rewrite E in H.
-           ++ inversion H; subst; sim. repeat split; try congruence; auto.
-           ++ apply IH in H; [|sim; auto]. sim.
-              destruct H as (Ho' & Hp' & Hm & Hw & Hb & Hr1 & Hr2 & Hr3 & Hf).
-              repeat split; try congruence; auto.
-              ** apply (moved_recv s (set_buf s1 (buf s1 ++ x :: b)) s' (x :: b)); sim;
-                   [now rewrite Eb | exact Es | exact Hm].
-              ** intros Hlt. apply Hf. unfold meas in *. sim.
-                 assert (Hne : x :: b <> []) by discriminate. specialize (Em Hne). unfold meas in Em. sim. lia.
+        -- assert (CUT : (sc, rc) = (s', r) ->
+             is_open s' = is_open s /\ pend s' = pend s /\ moved s s' (ret r) /\ wf c (orc s') /\
+             (forall b, r = RBytes b -> shortest term b) /\
+             r <> RRuntime /\ r <> RNone /\ r <> RInvalid /\ (meas s < S f -> r <> RFuel)).
+           { intros HH. inversion HH; subst. apply cut_term_Some in Ec as (bb & rest & -> & Hsh & Hcat & ->).
+             sim. repeat split; try congruence; auto.
+             destruct Mrecv as (rx & M1 & M2). sim. exists rx. cbn [ret app] in *. sim. rewrite Hcat.
+             split; assumption. }
+           destruct (deadline (cpol c) tmo ts (clk s1)); [apply CUT, H | | apply CUT, H].
+           destruct (late_ru (cpol c)); [apply CUT, H | apply TMO, H].
+        -- destruct (deadline (cpol c) tmo ts (clk s1)) as [| |tr'];
+             [apply (REC None), H | apply TMO, H | apply (REC (Some tr')), H].
     + inversion H; subst. repeat split; try congruence; auto.
       exists []. cbn [ret app]. rewrite app_nil_r, Eb. split; [reflexivity | exact Ed].
     + exfalso. destruct Ed as (Ebound & Esz & _). specialize (Ebound W). lia.
@@ -357,7 +382,9 @@ Proof.
     destruct dv as [b| |b|].
     + destruct Ed as (Es & Elen & Em). destruct b as [|x b].
       * inversion H; subst. repeat split; auto. exists []. now rewrite app_nil_r.
-      * apply IH in H. destruct H as (Ho' & Hp' & Hb' & Hw' & (rx & Hd & Hs) & Hr & Hf).
+      * destruct (disc_once (cpol c)).
+        { inversion H; subst. repeat split; auto. exists (x :: b). split; [reflexivity | exact Es]. }
+        apply IH in H. destruct H as (Ho' & Hp' & Hb' & Hw' & (rx & Hd & Hs) & Hr & Hf).
         repeat split; try congruence; auto.
         -- exists ((x :: b) ++ rx). split; [now rewrite Hd, <- app_assoc|].
            rewrite <- app_assoc, Hs. exact Es.
@@ -399,6 +426,8 @@ Lemma sock_read_until_spec c term tmo s s' r :
      ((s' = s /\ r = RInvalid) \/ exists b, r = RBytes b)).
 Proof.
   unfold sock_read_until. intros W H.
+  destruct (ru_chk_first (cpol c) && negb (is_open s)) eqn:Ecf.
+  { inversion H; subst. repeat split; auto; try congruence. apply moved_refl; reflexivity. }
   destruct (cut_term term s) as [[sc rc]|] eqn:Ec.
   - inversion H; subst. apply cut_term_Some in Ec as (bb & rest & -> & Hsh & Hcat & ->). sim.
     repeat split; auto; try congruence.
